@@ -229,7 +229,7 @@ pub fn run(ctx: &Ctx) -> Report {
         return rep;
     }
     let thorough = !ctx.quick();
-    let n_random = ctx.budget(400, 12_000);
+    let n_random = ctx.budget(3_000, 40_000);
     let seed = ctx.seed;
     let dir = directed();
     let dir_ref = &dir;
